@@ -22,7 +22,8 @@ C08Acc ==
                                       e.over = 0 /\ V \subseteq (VocabSet(c.set) \cup {""}))
                                   + (IF c.opt THEN 0 ELSE Chk("C08.non-empty", << e.acc, e.empties >>, e.empties = 0))
                  [] c.k = "str" -> (IF c.nonempty THEN Chk("C08.non-empty", << e.acc, e.empties >>, e.empties = 0) ELSE 0)
-                 [] c.k = "list" -> (IF c.nodup THEN Chk("C08.list-no-duplicates", << e.acc, e.dup >>, Len(e.dup) = 0) ELSE 0)
+                 [] c.k = "list" -> Chk("C08.list-elements-of-one-type", << e.acc, e.etypes >>, Len(e.etypes) <= 1)
+                                    + (IF c.nodup THEN Chk("C08.list-no-duplicates", << e.acc, e.dup >>, Len(e.dup) = 0) ELSE 0)
                                     + (IF c.nonempty THEN Chk("C08.list-non-empty", << e.acc, e.lists >>, \A i \in 1..Len(e.lists) : e.lists[i][1] > 0) ELSE 0)
                                     + (IF c.set # "" THEN Chk("C08.name-from-vocabulary", << e.acc, c.set, V \ VocabSet(c.set) >>, e.over = 0 /\ V \subseteq VocabSet(c.set)) ELSE 0)
                  [] c.k = "obj" -> Chk("C08.object-present", e.acc, "<nil>" \notin V)
